@@ -1,4 +1,5 @@
 import LexVerif.Proof.ParseNumberDebugU64
+import LexVerif.Proof.PrefixRepair
 /-!
 # Proof.ParseNumberDebugPhases — the phases of `parse_number` under `Ctx`
 
@@ -71,25 +72,53 @@ theorem parseSign_safe (cx : Ctx c) (np rq : Bool) (ip ms : String) (b : Bytes) 
 
 theorem prefixPhase_safe (cx : Ctx c) (b : Bytes) (hb : Bytes.Valid b) :
     Safe (prefixPhase c b) (fun r => Adv b r.2) := by
-  unfold prefixPhase
-  simp only [prefixRepair, Bool.false_eq_true, if_false]
-  split
-  · next hcond =>
-    simp only [Bool.and_eq_true, ne_eq, decide_eq_true_eq] at hcond
-    refine Safe.bind (readIfValueCased_safe cx .integer 48 (Or.inr (zero_ne_sep cx)) b hb) ?_
-    rintro ⟨zero, b1⟩ ⟨hadv, _⟩
-    have hadv : Adv b b1 := hadv
-    simp only
+  apply LexVerif.Proof.PrefixRepair.prefixPhase_cases (fun x => Safe x (fun r => Adv b r.2))
+  · intro _
+    unfold prefixPhaseRepaired
     split
-    · refine Safe.bind (readIfValue_safe cx .integer c.basePrefix _ (cx.prefixOk (by simpa using hcond.2)) b1 hadv.valid') ?_
-      rintro ⟨hit, b2⟩ hadv2
-      have hadv2 : Adv b1 b2 := hadv2
+    · next hcond =>
+      simp only [Bool.and_eq_true, ne_eq, decide_eq_true_eq] at hcond
+      refine Safe.bind_eq (readIfValueCased_safe cx .integer 48 (Or.inr (zero_ne_sep cx)) b hb) ?_
+      rintro ⟨zero, b1⟩ heq1 ⟨hadv, _⟩
+      have hadv : Adv b b1 := hadv
       simp only
       split
-      · exact Safe.err
-      · exact hadv.trans hadv2
-    · exact hadv
-  · exact adv_refl hb
+      · refine Safe.bind_eq (readIfValue_safe cx .integer c.basePrefix _ (cx.prefixOk (by simpa using hcond.2)) b1 hadv.valid') ?_
+        rintro ⟨hit, b2⟩ heq2 hadv2
+        have hadv2 : Adv b1 b2 := hadv2
+        simp only
+        split
+        · split
+          · exact Safe.err
+          · exact hadv.trans hadv2
+        · -- the prefix byte does not follow: `set_cursor(prefix_start)` gives the iterator back
+          have o := (LexVerif.Proof.PrefixRepair.readIfValueCased_onlyIndex c .integer 48 b b1 zero heq1).trans
+            (LexVerif.Proof.PrefixRepair.readIfValue_onlyIndex c .integer _ _ b1 b2 hit heq2)
+          have hsl : b2.slc = b.slc := by rw [o]
+          have hr := o.restore
+          rw [if_pos (by rw [hsl]; exact hb), hr]
+          exact adv_refl hb
+      · exact hadv
+    · exact adv_refl hb
+  · intro _
+    unfold prefixPhaseCurrent
+    split
+    · next hcond =>
+      simp only [Bool.and_eq_true, ne_eq, decide_eq_true_eq] at hcond
+      refine Safe.bind (readIfValueCased_safe cx .integer 48 (Or.inr (zero_ne_sep cx)) b hb) ?_
+      rintro ⟨zero, b1⟩ ⟨hadv, _⟩
+      have hadv : Adv b b1 := hadv
+      simp only
+      split
+      · refine Safe.bind (readIfValue_safe cx .integer c.basePrefix _ (cx.prefixOk (by simpa using hcond.2)) b1 hadv.valid') ?_
+        rintro ⟨hit, b2⟩ hadv2
+        have hadv2 : Adv b1 b2 := hadv2
+        simp only
+        split
+        · exact Safe.err
+        · exact hadv.trans hadv2
+      · exact hadv
+    · exact adv_refl hb
 
 theorem sliceTo_ok (start : Bytes) (n : Nat) (tag : String) (h : start.index + n ≤ start.slc.length) :
     sliceTo c start n tag = .ok ((start.slc.drop start.index).take n) := by
